@@ -37,7 +37,7 @@ from ..evidence import Run, canon_hash
 PID = "C10"
 SHARDS = {"quick": 6, "thorough": 16}
 SHARD_TIMEOUT = {"quick": 400, "thorough": 1700}
-N_PER_TYPE = {"quick": 36, "thorough": 900}
+N_PER_TYPE = {"quick": 90, "thorough": 900}
 
 
 def new_run():
@@ -83,6 +83,17 @@ def mech(kind, w):
     exc = w.get("exc", "")
     if short == "ArrowDictionary" and kind in S2_KINDS:
         return "arrow-dictionary-coerce-result-fails-own-check"
+    if kind in S2_KINDS and cls == "pandas_engine.Date" and cont.get("values") and \
+            all(v == "<null>" for v in cont["values"] + cont.get("values2", [])):
+        return "pandas-date-coerce-of-all-null-yields-datetime64"
+    if kind in S2_KINDS and cls == "pandas_engine.DateTime" and empty and \
+            cont.get("shape") == "frame":
+        return "pandas-datetime-coerce-of-empty-frame-not-converted"
+    if kind in S2_KINDS and cls == "pandas_engine.Decimal":
+        return "pandas-decimal-check-counts-sign-and-leading-zero"
+    if kind == "coerce_value-disagrees-with-coerce" and short == "Timedelta64" and \
+            w.get("coerce_value", "").startswith("td:"):
+        return "timedelta-coerce_value-truncates-nanoseconds"
     if cls.startswith("pandas_engine.Python"):
         if kind in S2_KINDS and empty:
             return "python-generic-coerce-of-empty-container-keeps-dtype"
@@ -225,6 +236,8 @@ def allowed_shapes(t):
     from pandera.engines import pandas_engine as pe
     if isinstance(t, pe.PydanticModel):
         return ("frame",)
+    if isinstance(t, pe.PythonGenericType):
+        return ("series", "frame")       # an Index of dicts / lists is not a thing
     if type(t).__module__.endswith("numpy_engine"):
         return ("series", "index", "frame", "ndarray")
     return ("series", "index", "frame")
@@ -235,12 +248,12 @@ def pandas_case(run, rec, label, t, rng):
     kind, extra = G.pandas_kind(t)
     c, desc = G.gen_pandas_container(rng, kind)
     if desc["shape"] not in allowed_shapes(t):
-        if "frame" in allowed_shapes(t) and desc["shape"] != "frame":
+        if "series" in allowed_shapes(t):
+            c = pd.Series(list(c), dtype=object if c.dtype == object else None)
+            desc["shape"] = "series"
+        else:
             c = pd.DataFrame({"a": c if not isinstance(c, np.ndarray) else list(c)})
             desc["shape"] = "frame"
-        elif isinstance(c, np.ndarray):
-            c = pd.Series(c)
-            desc["shape"] = "series"
     eng = "numpy" if type(t).__module__.endswith("numpy_engine") else "pandas"
     cn = cname(t)
     from pandera.engines import pandas_engine as _pe
@@ -340,7 +353,9 @@ def pandas_success(run, eng, t, kind, extra, c, out, base):
             G.is_null(v) or G.exact(kind, extra, v)[0] for v in vin)
         for i, v in enumerate(vin):
             if G.is_null(v):
-                if not all_exact:
+                if str(getattr(cin, "dtype", "")) == "category":
+                    run.count("undecided:null-in-categorical-input(pandas-astype)")
+                elif not all_exact:
                     run.count("undecided:null-beside-inexact-elements")
                 elif G.can_hold_null(t) and kind != "object":
                     run.count(f"{eng}:S3_null_elements")
@@ -482,8 +497,6 @@ def pandas_schema_level(run, t, c, out, status, err, base, rng):
         paths.append(("series-schema",
                       lambda: pa.SeriesSchema(t, coerce=True, nullable=True), c))
     elif isinstance(c, pd.Index):
-        if c.has_duplicates and False:
-            return 0
         paths.append(("index",
                       lambda: pa.DataFrameSchema(index=pa.Index(t, coerce=True, nullable=True)),
                       pd.DataFrame({"x": range(len(c))}, index=c)))
